@@ -800,10 +800,60 @@ def payloads(tier: str, seed: int) -> List[Tuple[str, str, bool, str, str, str, 
     return out
 
 
+def large_worker(payload: Tuple[str, int, str]) -> Dict[str, Any]:
+    """Appends that are written in several internal batches (the writer slices a record list into batches of 1000):
+    every size at and around the batch boundaries x both record entry points - the scan must return exactly the
+    supplied multiset (no row lost at a boundary, none duplicated), and so must the independent reader."""
+    from datashard import create_table, load_table
+    from dsmc import reader
+    from dsmc.tables import fresh_dir, row, schema, use_local
+
+    tier, seed, api = payload
+    rep = Report("C11", tier, seed, "exploration")
+    sizes = (999, 1000, 1001, 2000, 2001, 2500) if tier == "quick" else (999, 1000, 1001, 1999, 2000, 2001, 2500, 3000, 3001, 5000)
+    for n in sizes:
+        use_local()
+        root = fresh_dir(f"c11-large-{api}-{n}")
+        t = create_table(root, schema())
+        recs = [row(i) for i in range(n)]
+        if api == "append_records":
+            t.append_records(recs)
+        else:
+            with t.new_transaction() as tx:
+                tx.append_data(recs)
+        want = reader.canon_rows(recs)
+        for handle_name, h in (("same", t), ("fresh", load_table(root))):
+            rep.add("evaluations")
+            rep.add("large_append_cases")
+            rep.nontrivial(("large", api, n, handle_name))
+            got = reader.canon_rows(h.scan())
+            ind = reader.TableState(reader.LocalView(root)).current_rows()
+            cnt = h.row_count()
+            probs = []
+            if got != want:
+                probs.append(f"scan returned {len(got)} rows for {n} supplied ({len(set(got))} distinct)")
+            if ind != want:
+                probs.append(f"the data files hold {len(ind)} rows for {n} supplied")
+            if cnt != n:
+                probs.append(f"row_count() = {cnt} for {n} supplied")
+            for k in (0, 999, 1000, 1999, 2000, n - 1):
+                if k < n:
+                    f = reader.canon_rows(h.scan(filter={"a": ("==", k)}))
+                    if f != [reader.canon_row(row(k))]:
+                        probs.append(f"filter a == {k} returned {len(f)} rows")
+            if probs:
+                rep.violation({"part": "large_append", "api": api, "problem": "rows_not_exactly_as_supplied",
+                               "size_class": "one_batch" if n <= 1000 else ("two_batches" if n <= 2000 else "three_or_more_batches")},
+                              {"rows_supplied": n, "handle": handle_name, "problems": probs[:6]})
+    return rep.part()
+
+
 def run(tier: str, seed: int) -> Report:
     rep = Report("C11", tier, seed, "exploration")
     ps = payloads(tier, seed)
     for part in pmap("checks.c11", "worker", ps):
+        rep.merge(part)
+    for part in pmap("checks.c11", "large_worker", [(tier, seed, a) for a in RECORD_APIS]):
         rep.merge(part)
     rep.add("worker_payloads", len(ps))
     types = QUICK_TYPES if tier == "quick" else ALL_TYPES
